@@ -236,3 +236,8 @@ def run(repo: Repo, rep: Report, tier: str) -> None:
     rep.rule("C05-R6", "rewriting references in a latch write keeps set and reset apart: each operand slot is rebuilt from its own old value")
     from .shared import slot_rewrites_are_self_referential as _srs
     _srs(repo, rep, "C05-R6", only_class="IRLatchWrite")
+
+    # ---------------- R7 ---------------------------------------------------------------
+    from .shared import borrow as _borrow5
+    _borrow5(repo, rep, "C06", "C06-R9", "C05-R7", "whatever produces a latch's value, set and reset signals stays in place: the usage index records the latch write's operands as consumers",
+             select=lambda o: "IRLatchWrite." in o.construct, floor=5)
